@@ -10,7 +10,7 @@ pub mod prog;
 use std::collections::{HashMap, VecDeque};
 use std::sync::{Arc, Condvar, Mutex};
 
-use jiff::tz::{Offset, TimeZone};
+use jiff::tz::{Offset, TimeZone, TimeZoneDatabase};
 use serde_json::{json, Value};
 
 use crate::alloc;
@@ -75,6 +75,7 @@ struct Run {
     db_blocks: HashMap<(usize, u64), u32>,
     db_mtime: u64,
     db_gets: u64,
+    db_paths: [u64; 6],
 }
 
 // Every simulated thread is a real OS thread (so that thread-local state
@@ -515,14 +516,16 @@ impl Env for NativeEnv {
                 .map(|(i, c)| if i % 2 == 0 { c.to_ascii_uppercase() } else { c.to_ascii_lowercase() })
                 .collect(),
         };
-        let tz = match db.get(&q) {
+        let how = (case / 4) % 6;
+        let tz = match db_lookup(&db, &q, how) {
             Ok(tz) => tz,
             Err(e) => {
-                violate("answer", format!("database lookup of {q:?} failed: {e}"));
+                violate("answer", format!("database lookup of {q:?} (path {how}) failed: {e}"));
                 return None;
             }
         };
         drop(db);
+        with_run(|r| r.db_paths[how as usize] += 1);
         with_run(|r| r.db_gets += 1);
         assert_eq!(std::mem::size_of::<TimeZone>(), std::mem::size_of::<usize>());
         let bits: usize = unsafe { std::mem::transmute_copy(&tz) };
@@ -619,6 +622,40 @@ impl Env for NativeEnv {
         let mark = with_run(|r| r.no_alloc_mark);
         if a != mark {
             violate("unexpected_alloc", format!("{what} allocated {} time(s)", a - mark));
+        }
+    }
+}
+
+/// One lookup of `q` in `db`: directly, or through each public API that takes
+/// a database and hands the handle on (the intermediate `Zoned` or pieces are
+/// dropped here, so only the returned handle stays counted).
+fn db_lookup(db: &TimeZoneDatabase, q: &str, how: u8) -> Result<TimeZone, String> {
+    use jiff::fmt::{strtime, temporal};
+    static PARSER: temporal::DateTimeParser = temporal::DateTimeParser::new();
+    let e = |e: jiff::Error| e.to_string();
+    match how {
+        0 | 1 => db.get(q).map_err(e),
+        2 => PARSER.parse_time_zone_with(db, q).map_err(e),
+        3 => {
+            let z = PARSER.parse_zoned_with(db, format!("2024-06-15T12:00:00[{q}]")).map_err(e)?;
+            let tz = z.time_zone().clone();
+            drop(z);
+            Ok(tz)
+        }
+        4 => {
+            let text = format!("2024-06-15T12:00:00[{q}]");
+            let pieces = temporal::Pieces::parse(&text).map_err(e)?;
+            pieces
+                .to_time_zone_with(db)
+                .map_err(e)?
+                .ok_or_else(|| "no time zone annotation".to_string())
+        }
+        _ => {
+            let tm = strtime::parse("%Y-%m-%d %H:%M %Q", format!("2024-06-15 12:00 {q}")).map_err(e)?;
+            let z = tm.to_zoned_with(db).map_err(e)?;
+            let tz = z.time_zone().clone();
+            drop(z);
+            Ok(tz)
         }
     }
 }
@@ -841,6 +878,7 @@ fn run_case(
             db_blocks: HashMap::new(),
             db_mtime: 0,
             db_gets: 0,
+            db_paths: [0; 6],
         });
     }
     if uses_db(&case) {
@@ -1133,6 +1171,11 @@ impl Prop for C20 {
             stats.add("oracle.answers_checked_against_golden_table", run.answers_golden);
             stats.add("oracle.eq_checked", run.eq_checked);
             stats.add("database.lookups", run.db_gets);
+            stats.add("database.lookups_via.get", run.db_paths[0] + run.db_paths[1]);
+            stats.add("database.lookups_via.parse_time_zone_with", run.db_paths[2]);
+            stats.add("database.lookups_via.parse_zoned_with", run.db_paths[3]);
+            stats.add("database.lookups_via.pieces_to_time_zone_with", run.db_paths[4]);
+            stats.add("database.lookups_via.strtime_to_zoned_with", run.db_paths[5]);
             stats.add("ignored.zoned_arithmetic_api_panics", run.api_panics);
             stats.add("tolerated.interior_buffers_replaced_while_handles_live", run.interior_reallocs);
             stats.add("oracle.memory_model_checks", run.mem_checks);
